@@ -127,7 +127,7 @@ func newOptKit(beforeNode, afterNode string) *optKit {
 	k := &optKit{before: []string{beforeNode}, after: []string{afterNode}, opts: map[string][]compose.GraphCompileOption{}}
 	n := new(int)
 	k.cbs = []compose.GraphCompileCallback{nopCompileCallback{n}}
-	k.opts[""] = nil
+	k.opts["plain"] = nil
 	k.opts["name"] = []compose.GraphCompileOption{compose.WithGraphName("g")}
 	k.opts["max"] = []compose.GraphCompileOption{compose.WithMaxRunSteps(9)}
 	k.opts["all"] = []compose.GraphCompileOption{compose.WithNodeTriggerMode(compose.AllPredecessor)}
@@ -348,9 +348,9 @@ func workflowLates(prefix string, wf *compose.Workflow[string, string], known []
 // ---------------------------------------------------------------------------
 
 var (
-	pregelVariants = []variant{{"", "pregel"}, {"ib", "ib"}, {"ia", "ia"}, {"name", "pregel"}, {"store", "pregel"}, {"cb", "pregel"}, {"max", "pregel-max"}, {"all", "dag"}}
-	chainVariants  = []variant{{"", "pregel"}, {"ib", "ib"}, {"ia", "ia"}, {"name", "pregel"}, {"store", "pregel"}, {"cb", "pregel"}, {"max", "pregel-max"}}
-	wfVariants     = []variant{{"", "dag"}, {"ib", "ib"}, {"ia", "ia"}, {"name", "dag"}, {"store", "dag"}, {"cb", "dag"}}
+	pregelVariants = []variant{{"plain", "pregel"}, {"ib", "ib"}, {"ia", "ia"}, {"name", "pregel"}, {"store", "pregel"}, {"cb", "pregel"}, {"max", "pregel-max"}, {"all", "dag"}}
+	chainVariants  = []variant{{"plain", "pregel"}, {"ib", "ib"}, {"ia", "ia"}, {"name", "pregel"}, {"store", "pregel"}, {"cb", "pregel"}, {"max", "pregel-max"}}
+	wfVariants     = []variant{{"plain", "dag"}, {"ib", "ib"}, {"ia", "ia"}, {"name", "dag"}, {"store", "dag"}, {"cb", "dag"}}
 )
 
 var scenarios []scenario
@@ -750,8 +750,9 @@ func compileFlags(sc int) []bool {
 }
 
 // lateSpace enumerates, for one (scenario, init variant): every single late operation followed by
-// every Compile variant (op, K), every (K, op), and - allPairs - every ordered pair of operations
-// followed by a Compile with the options of the first Compile.
+// every Compile variant (op, K), every (K, op), and - allPairs (thorough tier) - every ordered pair
+// of operations followed by a Compile with the options of the first Compile (op1, op2, K0), also
+// with a Compile of every variant between the two (op1, K, op2, K0).
 type lateSpace struct {
 	sc, init int
 	n        int   // number of late operations
@@ -779,7 +780,7 @@ func (sp *lateSpace) count() int64 {
 	n, k := int64(sp.n), int64(len(sp.ks))
 	total := n*k + k*n
 	if sp.allPairs {
-		total += n * n
+		total += n * n * (1 + k)
 	}
 	return total
 }
@@ -793,9 +794,13 @@ func (sp *lateSpace) nth(i int64) lateSeq {
 	case i < 2*n*k:
 		i -= n * k
 		s.idx = []int{sp.ks[i/n], int(i % n)}
-	default:
+	case i < 2*n*k+n*n:
 		i -= 2 * n * k
 		s.idx = []int{int(i / n), int(i % n), sp.sameK}
+	default:
+		i -= 2*n*k + n*n
+		pair, v := i/k, i%k
+		s.idx = []int{int(pair / n), sp.ks[v], int(pair % n), sp.sameK}
 	}
 	return s
 }
